@@ -270,6 +270,8 @@ func runC04(c *report.Ctx) {
 	ruleBranchKeyAgreement(c)
 	ruleByteOrder(c, []string{pkgKeystore, pkgHD, pkgSnacl}, 4)
 	ruleLayout(c, []string{"pubkey-record-key"}, 2)
+	ruleChildNumberRoles(c)
+	ruleWipedCacheDropped(c)
 }
 
 func kindOnly(os []string) string {
